@@ -79,3 +79,12 @@ package types
 //@ loop 1: invariant (forall i :: 0 <= i && i < len(validatorPriceInfos) ==> validatorPriceInfos[i].Power >= 0) ==> (forall j :: 0 <= j && j < #i ==> weightedPrices[j].Weight >= 0)
 //@ loop 2: invariant sectionIndex <= 5
 //@ loop 2: invariant (forall i :: 0 <= i && i < len(validatorPriceInfos) ==> validatorPriceInfos[i].Power >= 0) ==> (currentPower >= 0 && leftPower >= 0 && totalWeight >= 0 && secOK(sectionIndex, currentPower, totalPower))
+
+// ---- assumed contract of the restake keeper as seen from feeds (concrete: restake/keeper.SetLockedPower,
+// verified under C16): a lock is accepted only if it is a uint64 and does not exceed the account's total power.
+//@ spec totalPowerOf(o OtherState, a Addr) Int uninterpreted
+//@ func (k RestakeKeeper) SetLockedPower
+//@ trusted
+//@ modifies Other
+//@ ensures err == nil ==> 0 <= amount && amount <= totalPowerOf(old(Other), addr)
+//@ ensures err != nil ==> Other == old(Other)
